@@ -73,17 +73,20 @@ theorem parseAuthAlgorithm_ne_unm (v : Str) : parseAuthAlgorithm v ≠ .unm := b
   · simp
   · split <;> simp
 
+theorem ite_ne_unm {α : Type} {c : Prop} [Decidable c] {a b : Res α} (ha : a ≠ .unm) (hb : b ≠ .unm) :
+    (if c then a else b) ≠ .unm := by
+  split <;> assumption
+
 theorem Transport.step_ne_unm (st : Transport × Bool) (k v : Str) : Transport.step st k v ≠ .unm := by
   have h1 := parsePorts_ne_unm v
   have h2 := parseMode_ne_unm v
   unfold Transport.step
   simp only
-  repeat' split
-  all_goals first
+  repeat' (first | apply ite_ne_unm | (intro h; cases h; done))
+  all_goals (split <;> first
     | (intro h; cases h; done)
     | exact absurd ‹parsePorts v = Res.unm› h1
-    | exact absurd ‹parseMode v = Res.unm› h2
-    | trace_state
+    | exact absurd ‹parseMode v = Res.unm› h2)
 
 theorem Transport.steps_ne_unm : ∀ (pairs : List (Str × Str)) (st : Transport × Bool), Transport.steps st pairs ≠ .unm
   | [], st => by simp [Transport.steps]
